@@ -18,6 +18,15 @@ META = {
                 note="As C01.", tech="TLA+ oracle evaluated by TLC on implementation traces"),
 }
 
+META["C11"] = dict(cat="model_checking", design="6 C11",
+                   text="TLC decides the stage's contract (definite => correctly rounded for w*10^q and for the whole interval "
+                        "[w,w+1)*10^q when digits were dropped) on records of parse::moderate_path from default "
+                        "(Eisel-Lemire) and compact (Bellerophon) builds, and checks that the action-by-action models "
+                        "Lemire.tla / Bellerophon.tla reproduce every returned field.",
+                   note="Release profile (value property). Inputs are constructed from exact float midpoints for every "
+                        "exponent field; u64 x i32 x bool is not enumerated. Trusted base as C01.",
+                   tech="TLA+ contract + algorithm model (Lemire.tla, Bellerophon.tla) checked by TLC against implementation traces")
+
 PENDING = "check not built yet in this revision of /verif (planned; see DESIGN.md section 6)"
 
 
